@@ -135,7 +135,7 @@ def _neighbors_post(c, A, R):
 
 
 s = view_contract("IDView.neighbors", "view:nodes:H", [("idx", "val"), ("s", "int", 1)], "nodes")
-s.variants = [{"self": "view:nodes:H"}, {"self": "view:edges:H"}]
+s.variants = [{"self": "view:nodes:H"}, {"self": "view:edges:H"}, {"self": "view:nodes:SC"}, {"self": "view:edges:SC"}]
 s.req("hashable", lambda c, A: c.hashable(A.idx.term), PROPS)
 s.req("UInv", lambda c, A: UInv(c, A.S0), PROPS)
 s.ens("ids-sharing-s-elements", PROPS + ("C09",), _neighbors_post)
@@ -197,7 +197,7 @@ def _iter_pre(c, t):
 
 
 s = view_contract("IDView.lookup", "view:nodes:H", [("neighbors", "val")], "nodes")
-s.variants = [{"self": "view:nodes:H"}, {"self": "view:edges:H"}]
+s.variants = [{"self": "view:nodes:H"}, {"self": "view:edges:H"}, {"self": "view:edges:SC"}]
 s.req("iterable-of-ids", lambda c, A: _iter_pre(c, A.neighbors.term), PROPS)
 s.ens("ids-whose-set-equals-the-argument", PROPS + ("C09",), lambda c, A, R: _content_is(c, R, "lookup",
     lambda i: z3.And(sel(_own(A.S0, A.view_which["self"])[0], i), sel(_own(A.S0, A.view_which["self"])[1], i) == c.content(A.neighbors.term))))
@@ -214,6 +214,7 @@ def _iso_loop(c, A, K):
 
 
 s = view_contract("NodeView.isolates", "view:nodes:H", [("ignore_singletons", "bool", False)], "nodes")
+s.variants = [{"self": "view:nodes:H"}, {"self": "view:nodes:SC"}]
 s.req("UInv", lambda c, A: UInv(c, A.S0), PROPS)
 s.loop("for members in self._bi_id_dict.values()", _iso_loop)
 _isoC = lambda c, R: _content(c, R, "isolates")
@@ -226,6 +227,7 @@ s.ens("unlisted-nodes-have-a-counting-edge", PROPS + ("C09",), lambda c, A, R: c
 s.notes = "ignore_singletons=True: loop invariant over the member sets; False: through the assumed filterby('degree', 0) model"
 
 s = view_contract("EdgeView.singletons", "view:edges:H", [], "edges")
+s.variants = [{"self": "view:edges:H"}, {"self": "view:edges:SC"}]
 s.ens("edges-of-size-one", PROPS, lambda c, A, R: _content_is(c, R, "singletons", lambda e: z3.And(sel(A.S0.ek, e), c.card(sel(A.S0.E, e)) == 1)))
 s.notes = "one-line wrapper of the assumed filterby('size', 1) model"
 s = view_contract("EdgeView.empty", "view:edges:H", [], "edges")
